@@ -30,6 +30,15 @@ def field_stores(f, field):
     return out
 
 
+def _timeout_items(t):
+    """named constants (item paths) occurring in a term"""
+    out = set()
+    for x in walk(t):
+        if x[0] == "const" and x[3]:
+            out.add(x[3])
+    return out
+
+
 def rule_who(R):
     f = R.f
     cm = roles.conn_methods(f)
@@ -42,8 +51,14 @@ def rule_who(R):
         if v[0] == "agg" and v[3] == "Some":
             ok = b.name == cf.name
             val = peel(v[5][0])
-            okv = is_call(val, "Add::add", "add") and val[3][0] == ("param", "now") and is_call(peel(val[3][1]), "Duration::from_millis") \
-                and peel(val[3][1])[3][0][0] == "const" and (peel(val[3][1])[3][0][3] or "").endswith("ROUND_TRIP_TIMEOUT_MS")
+            # now + <a named round-trip constant> (whatever it is called; const/shared ties it to the PINGREQ lead time)
+            def _plain_const(t_):
+                t_ = peel(t_)
+                if t_[0] == "const" and t_[3]:
+                    return True
+                return is_call(t_, "Duration::from_millis", "Duration::from_secs", "Duration::from_micros") and len(t_[3]) == 1 \
+                    and peel(t_[3][0])[0] == "const" and bool(peel(t_[3][0])[3])
+            okv = is_call(val, "Add::add", "add") and val[3][0] == ("param", "now") and _plain_const(val[3][1])
             R.ob("who/ping-timeout-armed/%s" % b.fn_name, ok and okv,
                  "the PINGRESP deadline is armed only in complete_flush, as now + ROUND_TRIP_TIMEOUT (found %s in %s)" % (show(v), b.fn_name),
                  where=span)
@@ -403,17 +418,84 @@ def rule_const(R):
     ks = roles.method(f, RUNTIME, "keepalive_send_interval")
     R.touch(ks)
     t = ks.local_term(0)
-    uses_const = any(x[0] == "const" and (x[3] or "").endswith("ROUND_TRIP_TIMEOUT_MS") for x in walk(t))
+    # the constant(s) that bound the wait for PINGRESP, taken from where the deadline is armed
+    armed = set()
+    for (b_, bb_, v_, sp_) in field_stores(f, "ping_timeout"):
+        if v_[0] == "agg" and v_[3] == "Some" and v_[5]:
+            armed |= _timeout_items(v_[5][0])
+    mine = set()
+    for x in walk(t):
+        mine |= _timeout_items(x) if x[0] == "const" else set()
+    for c_ in ks.calls.values():
+        if c_.bb in ks.reachable:
+            for a_ in c_.args:
+                mine |= _timeout_items(ks.operand_term(a_))
+    for bb_ in ks.switches:
+        mine |= _timeout_items(ks.switch_info(bb_)["subject"])
+    def closure(items):
+        """a constant defined in terms of another one (`const T: Duration = from_millis(T_MS)`) is the same quantity"""
+        out = set(items)
+        work = list(items)
+        while work:
+            it = work.pop()
+            cb = f.bodies.get(it)
+            if cb is None or cb.kind not in ("const", "assoc_const"):
+                continue
+            found = set()
+            for c2 in cb.calls.values():
+                for a2 in c2.args:
+                    found |= _timeout_items(cb.operand_term(a2))
+            for bb2, j2, s2 in cb.assigns():
+                found |= _timeout_items(cb.rvalue_term(s2["rv"]))
+            for x in found - out:
+                out.add(x)
+                work.append(x)
+        return out
+    uses_const = bool(armed) and bool(closure(armed) & closure(mine))
     R.ob("const/shared", uses_const, "the PINGREQ lead time is derived from the same ROUND_TRIP_TIMEOUT constant that bounds the "
          "wait for PINGRESP", where=ks.span)
+    # the lead time is positive (and below the keep-alive) for every keep-alive of at least one second: interval
+    # abstract interpretation of keepalive_send_interval over keep-alive classes (1..12 s one by one, then 13 s .. u16::MAX)
+    from .. import absint
+    def is_ka(p):
+        fe = [e for e in p["proj"] if isinstance(e, dict) and "f" in e]
+        return bool(fe) and fe[-1].get("name") == "keepalive_interval"
+    bad_class = None
+    undecided = False
+    for cls in [(k * 1000, k * 1000) for k in range(1, 13)] + [(13000, 65535000)]:
+        it = absint.Interp(ks, is_ka, need_result=False)
+        it.run(cls)
+        if getattr(it, "aborted", False) or not it.subs:
+            undecided = True
+            break
+        for (a_, b_) in it.subs:
+            if a_ is None or b_ is None:
+                undecided = True
+            elif (b_[0] < 1 or not (b_[1] < a_[0])) and bad_class is None:
+                bad_class = (cls, a_, b_)
+    if undecided:
+        R.undecide("const/lead-positive", "keepalive_send_interval is not in a form the interval interpreter can evaluate")
+    else:
+        R.ob("const/lead-positive", bad_class is None,
+             "for every keep-alive of at least one second the PINGREQ is scheduled strictly before the keep-alive elapses: "
+             "the lead time subtracted from the keep-alive is at least one clock unit and less than the keep-alive%s"
+             % ("" if bad_class is None else " (keep-alive %d..%d ms: subtracting %s from %s)" % (bad_class[0][0], bad_class[0][1], bad_class[2], bad_class[1])),
+             where=ks.span)
     okz = False
     for bb in ks.switches:
         si = ks.switch_info(bb)
         s = peel(si["subject"])
-        if s[0] == "bin" and s[1] == "Eq" and any(x[0] == "const" and x[2] == 0 for x in (s[2], s[3])) and si["edges"].get(True) is not None:
-            vals = [ks.rvalue_term(s2["rv"]) for x in ks.reach([si["edges"][True]], avoid=[si["edges"].get(False)]) for s2 in ks.blocks[x]["stmts"]
-                    if s2["k"] == "assign" and s2["dst"]["l"] == 0]
-            okz = bool(vals) and all(v[0] == "agg" and v[3] == "None" for v in vals) and any(
+        if s[0] == "bin" and s[1] in ("Eq", "Ne") and any(x[0] == "const" and x[2] == 0 for x in (s[2], s[3])):
+            zero_lab = (s[1] == "Eq")
+            zt, nz = si["edges"].get(zero_lab), si["edges"].get(not zero_lab)
+            if zt is None:
+                continue
+            # every path that takes the `== 0` outcome returns None
+            vals = []
+            for lf in paths.explore(ks, zt, lambda t_: False, lambda b_, x_: False):
+                if lf["kind"] == "return":
+                    vals.append(paths.value_on_path(ks, [bb] + lf["path"], 0))
+            okz = bool(vals) and all(v is not None and v[0] == "agg" and v[3] == "None" for v in vals) and any(
                 x[0] == "field" and x[2] == "keepalive_interval" for x in walk(s))
     R.ob("const/zero-disables", okz, "a keep-alive of zero yields no ping interval (no PINGREQ is ever scheduled)", where=ks.span)
     # the handshake adopts the server keep-alive
